@@ -15,6 +15,8 @@
 #include <hgraph/types/static_node.h>
 #include <hgraph/types/time_series/ts_delta.h>
 #include <hgraph/types/time_series/ts_output.h>
+#include <hgraph/types/value/value_builder.h>
+#include <set>
 #include <cstdio>
 #include <cstdlib>
 #include <iostream>
@@ -52,16 +54,29 @@ const std::vector<Cycle> *g_history = nullptr;
 
 std::string show(const Op &o, const std::string &shape) {
     std::ostringstream s;
-    if (shape == "tss") s << (o.kind == 0 ? "add(" : "remove(") << o.key << ")";
+    if (shape == "tss" || shape == "tssassign") {
+        if (o.kind == 4) { s << "assign{"; for (Int e = 1; e <= 3; ++e) if (o.key & (Int{1} << (e - 1))) s << e << ","; s << "}"; }
+        else s << (o.kind == 0 ? "add(" : "remove(") << o.key << ")"; }
     else if (shape == "tsd") { if (o.kind == 0) s << "set(" << o.key << "," << o.arg << ")"; else s << "erase(" << o.key << ")"; }
     else { if (o.kind == 1) s << "erase(" << o.key << ")"; else s << "out[" << o.key << "]." << (o.kind == 2 ? "add(" : "remove(") << o.arg << ")"; }
     return s.str();
 }
 
 template <typename S> struct Producer;
+// kind 4 (shape tssassign): whole-value assignment of the set { e in {1,2,3} : bit (e-1) of key }, the way the conversion operators
+// publish a complete set value (TSDataMutationView::move_value_from)
 template <> struct Producer<TSS<Int>> { static constexpr auto name = "producer";
     static void eval(In<"c", TS<Int>> c, Out<TSS<Int>> out) {
-        for (const Op &o : (*g_history)[(std::size_t)c.value()]) { if (o.kind == 0) out.add(o.key); else out.remove(o.key); } } };
+        for (const Op &o : (*g_history)[(std::size_t)c.value()]) {
+            if (o.kind == 0) out.add(o.key);
+            else if (o.kind == 1) out.remove(o.key);
+            else {
+                const auto &erased = static_cast<const TSOutputView &>(out.base());
+                SetBuilder builder{out.data_view().layout().key_binding};
+                for (Int e = 1; e <= 3; ++e) if (o.key & (Int{1} << (e - 1))) { const Int v = e; (void)builder.insert_copy(&v); }
+                auto mutation = erased.begin_mutation(erased.evaluation_time());
+                (void)mutation.move_value_from(builder.build());
+            } } } };
 template <> struct Producer<TSD<Int, TS<Int>>> { static constexpr auto name = "producer";
     static void eval(In<"c", TS<Int>> c, Out<TSD<Int, TS<Int>>> out) {
         for (const Op &o : (*g_history)[(std::size_t)c.value()]) { if (o.kind == 0) out.set(o.key, o.arg); else (void)out.erase(o.key); } } };
@@ -88,6 +103,24 @@ template <typename S> bool run_history(const std::vector<Cycle> &h, const std::s
         auto ex = run_graph(std::move(gb), MIN_ST, MIN_ST + TimeDelta{(long)h.size() + 2});
     } catch (const std::exception &e) { std::cout << "FAILING-PROGRAM " << text << ":: run failed: " << e.what() << "\n"; g_shadow.reset(); return false; }
     g_shadow.reset();
+    if (shape == "tssassign") {
+        // explicit set model: the value observed at each tick is the set the mutations describe (an assignment REPLACES the contents)
+        std::set<Int> model; std::size_t ti = 0;
+        for (std::size_t c = 0; c < h.size(); ++c) {
+            if (h[c].empty()) continue;
+            for (const Op &o : h[c]) {
+                if (o.kind == 0) model.insert(o.key); else if (o.kind == 1) model.erase(o.key);
+                else { model.clear(); for (Int e = 1; e <= 3; ++e) if (o.key & (Int{1} << (e - 1))) model.insert(e); } }
+            while (ti < g_ticks.size() && g_ticks[ti].t < (long)c) ++ti;
+            if (ti >= g_ticks.size() || g_ticks[ti].t != (long)c) continue;     // a cycle whose mutations had no effect does not tick
+            std::set<Int> seen; { std::string num; for (char ch : g_ticks[ti].value + " ") { if (std::isdigit((unsigned char)ch)) num += ch; else { if (!num.empty()) seen.insert((Int)std::stol(num)); num.clear(); } } }
+            if (seen != model) {
+                std::ostringstream m; m << "{"; for (Int e : model) m << e << ","; m << "}";
+                std::cout << "FAILING-PROGRAM " << text << ":: tick " << c << " value " << g_ticks[ti].value << " but the mutations describe " << m.str() << "\n";
+                return false;
+            }
+        }
+    }
     for (const auto &tk : g_ticks) {
         if (tk.ok) continue;
         std::cout << "FAILING-PROGRAM " << text << ":: tick " << tk.t << " delta " << tk.delta << " value " << tk.value
@@ -109,6 +142,7 @@ int main(int argc, char **argv) {
     stdlib::register_standard_operators();
     std::vector<Op> ops;
     if (shape == "tss") { for (Int e : {1, 2}) { ops.push_back({0, e, 0}); ops.push_back({1, e, 0}); } }
+    else if (shape == "tssassign") { for (Int e : {1, 2}) { ops.push_back({0, e, 0}); ops.push_back({1, e, 0}); } for (Int m = 0; m < 8; ++m) ops.push_back({4, m, 0}); }
     else if (shape == "tsd") { for (Int k : {1, 2}) { ops.push_back({0, k, 10}); ops.push_back({0, k, 11}); ops.push_back({1, k, 0}); } }
     else { for (Int k : {1, 2}) { ops.push_back({1, k, 0}); for (Int e : {5, 6}) { ops.push_back({2, k, e}); if (k == 1) ops.push_back({3, k, e}); } } }
     // all op sequences of length <= L
@@ -126,7 +160,7 @@ int main(int argc, char **argv) {
         if (sample) for (auto &d : idx) d = rng() % cycles.size();
         else if ((leaf++ % shards) != shard) continue;
         std::vector<Cycle> h; for (auto i : idx) h.push_back(cycles[i]);
-        if (shape == "tss") ok = run_history<TSS<Int>>(h, shape);
+        if (shape == "tss" || shape == "tssassign") ok = run_history<TSS<Int>>(h, shape);
         else if (shape == "tsd") ok = run_history<TSD<Int, TS<Int>>>(h, shape);
         else ok = run_history<TSD<Int, TSS<Int>>>(h, shape);
     } while (ok && (sample ? g_count < sample : next()));
